@@ -32,7 +32,7 @@ def cases(tier, seed):
                     sc = T.gen_scenario(rng, N * P, epochs=2, ops_per_rank=5, ttl=2, maxfan=2, hprog=40, hcb=8, p_mask=20, p_progress=12,
                                         sizes=(0, 8, 100, 600, 1500), other=rng.choice([0, 0, 0, 50]))
                     out.append((sc, T.Config(N, P, routing, kb, irecvs=rng.choice([1, 2, 8]), isends_wait=rng.choice([0, 1, 4]),
-                                             issend=rng.choice([0, 1, 8]), policy=pol, eager=rng.choice([0, 50, 100]), sim_seed=rng.below(1 << 30))))
+                                             issend=rng.choice([0, 1, 8]), policy=pol, eager=rng.choice([0, 50, 100]), sim_seed=rng.below(1 << 30), placement=("cyclic" if N > 1 and rng.below(4) == 0 else None))))
     return out
 
 
